@@ -491,7 +491,7 @@ step_cb(int t)
   if (X == nullptr || X->phase != 1 || t < 0 || t >= kMaxT) return;
   auto &g = X->g;
   // C16: a forward never waits for other threads; it needs one pass over the thread slots
-  if (g.in_forward == t && ++g.fwd_steps > 8 * kCap + 64 && !g.fwd_blocked_reported) {
+  if (g.in_forward == t && ++g.fwd_steps > 3 * kCap + 16 && !g.fwd_blocked_reported) {  // a forward needs about capacity + 4 steps
     g.fwd_blocked_reported = true;
     report("FWD-BLOCKED", "ForwardGlobalEpoch has executed " + s(static_cast<size_t>(g.fwd_steps)) + " atomic steps without returning (capacity " + s(kCap) + "): it is waiting for something");
   }
